@@ -234,10 +234,59 @@ func c13MadeInTheTemplate(b *core.B) {
 	}
 }
 
+// c13ErrorTexts: equal text and equal data give the same error, word for word, every time
+// (names that are near a misspelt one, helper lists, maps printed in a message ...).
+func c13ErrorTexts(b *core.B) {
+	for _, t := range []string{
+		`<%= postz %>`, `<%= post %>`, `<% posq = 1 %>`, `<%= lenn(xs) %>`, `<%= rangee(1, 2) %>`, `<%= mp.nokey.x %>`, `<%= truncate(mp, {}) %>`, `<%= tt.Nope %>`, `<%= xs[9] %>`,
+		`<%= partial("nosuch") %>`, `<%= contentOf("nosuch") %>`, `<%= two(1) %>`, `<%= mp["a"]["b"] %>`, `<% let f = fn(a, b) { return a } %><%= f(1, 2, 3) + f() %>`,
+	} {
+		if !b.Begin("error text: " + t) {
+			continue
+		}
+		b.NonTrivialStr("error-text", t)
+		b.Count("error-texts-repeated")
+		var outs []string
+		pan := core.Guard(func() {
+			for i := 0; i < 24; i++ {
+				ctx := progCtx(nil)
+				for _, n := range []string{"posta", "postb", "posts", "postx", "len1", "len2", "mp1", "mp2", "xs1", "xs2"} {
+					ctx.Set(n, 1)
+				}
+				ctx.Set("two", func(a, b int) int { return a })
+				var s string
+				var err error
+				if i%2 == 0 {
+					s, err = plush.Render(t, ctx)
+				} else {
+					tm, perr := plush.NewTemplate(t)
+					if perr != nil {
+						err = perr
+					} else {
+						s, err = tm.Exec(ctx)
+					}
+				}
+				outs = append(outs, fmt.Sprintf("%q %v", s, err))
+			}
+		})
+		if pan != nil {
+			b.Violate(pan.Sig(), pan.Value)
+			continue
+		}
+		for _, o := range outs[1:] {
+			if o != outs[0] {
+				b.Violate("nondeterministic-error|repeated-exec", fmt.Sprintf("first execution: %s; later execution: %s", outs[0], o))
+				break
+			}
+		}
+	}
+}
+
 func c13Run(b *core.B) {
 	if b.Batch == 0 {
 		c13SameNamedTypes(b)
 		c13MadeInTheTemplate(b)
+		c13ErrorTexts(b)
 	}
 	r := b.Rng(1)
 	nProg, reps := 2000, 30
